@@ -88,11 +88,17 @@ the @import href (`css/sub/a.css` ↦ `[css, sub]`), `g` = its file name, `U ++ 
 `url()` of the imported sheet. `normComps false` is the loop of `os.path.normpath` on a relative path, `rdsSegs` the
 dot-segment removal of `urljoin`; the model's `normpath`/`urljoin` are built from exactly these. -/
 
-/-- T19.2 [W1]: seen from the importing (combined) sheet the re-based URL `norm (D ++ U ++ [f])` resolves to the
+/-- Full statement (does NOT hold for every URL, see the known findings below):
+  `∀ T h u, u relative → urljoin T (replacer h u) = urljoin (urljoin T h) u`.
+What is proved is its path algebra under the guards: `h` and `u` are path-only on the same origin, no empty
+segment (no `//`, no trailing `/`), the last segment of `u` is a name (not `.`/`..`), and the characters are ones
+`quote` leaves alone (`quote_identity_on_safe`); query/fragment are carried over verbatim (`replacer_relative`).
+
+T19.2 [W1]: seen from the importing (combined) sheet the re-based URL `norm (D ++ U ++ [f])` resolves to the
 path the original URL resolved to from the imported sheet's own location — for every base directory (also when
 `..` climbs above the root, where `urljoin` clamps), every import directory and every relative URL whose
 segments are non-empty and whose last segment is a name. -/
-theorem rebased_url_resolves_identically (T D U : List Str) (g f : Str)
+theorem rebased_url_resolves_identically_partial (T D U : List Str) (g f : Str)
     (hD : ∀ c ∈ D, c ≠ []) (hU : ∀ c ∈ U, c ≠ []) (hg : Normal g) (hf : Normal f) :
     rdsSegs (T ++ normComps false (D ++ U ++ [f]))
       = rdsSegs ((rdsSegs (T ++ D ++ [g])).dropLast ++ (U ++ [f])) := by
@@ -150,5 +156,130 @@ example : replacer (CssVerif.Proto.cps "css/a.css") (CssVerif.Proto.cps "../img/
 
 example : urljoin (CssVerif.Proto.cps "http://h/base/main.css") (CssVerif.Proto.cps "img/x.png?v=2#f")
     = urljoin (CssVerif.Proto.cps "http://h/base/css/a.css") (CssVerif.Proto.cps "../img/x.png?v=2#f") := by decide
+
+/-! ### known findings of the re-basing, machine-checked on the model (each also fails on the implementation) -/
+section
+open CssVerif.Proto
+
+/-- C19-rebase-same-document: `url(#frag)` of a sheet imported from `css/` becomes `url(css#frag)` -/
+theorem rebase_breaks_same_document_reference :
+    replacer (cps "css/a.css") (cps "#frag") = .ok (cps "css#frag") ∧
+    urljoin (cps "http://h/base/main.css") (cps "css#frag") = .ok (cps "http://h/base/css#frag") ∧
+    urljoin (cps "http://h/base/css/a.css") (cps "#frag") = .ok (cps "http://h/base/css/a.css#frag") := by decide
+
+/-- C19-rebase-other-origin: only the path of the @import href is used, so the re-based URL points to the main
+sheet's host -/
+theorem rebase_loses_the_host_of_the_import :
+    replacer (cps "http://other/css/a.css") (cps "x.png") = .ok (cps "/css/x.png") ∧
+    urljoin (cps "http://h/base/main.css") (cps "/css/x.png") = .ok (cps "http://h/css/x.png") ∧
+    urljoin (cps "http://other/css/a.css") (cps "x.png") = .ok (cps "http://other/css/x.png") := by decide
+
+/-- C19-rebase-trailing-slash: `normpath` drops a trailing slash / final dot segment -/
+theorem rebase_drops_trailing_slash :
+    replacer (cps "css/a.css") (cps "img/") = .ok (cps "css/img") ∧
+    urljoin (cps "http://h/base/main.css") (cps "css/img") = .ok (cps "http://h/base/css/img") ∧
+    urljoin (cps "http://h/base/css/a.css") (cps "img/") = .ok (cps "http://h/base/css/img/") := by decide
+
+/-- C19-rebase-reserved-chars: `quote(…, safe='/%')` percent-encodes characters that are legal in a path -/
+theorem rebase_encodes_reserved_characters :
+    replacer (cps "css/a.css") (cps "img@2x.png") = .ok (cps "css/img%402x.png") := by decide
+end
+
+/-! ## T19.3 — flattening
+
+Full statement (does NOT hold on every import tree, see the known findings below):
+  for every loaded tree, `resolveImports` returns a sheet with the same meaning — the rules of all reachable sheets in
+  cascade order under the media of their @import edges, every URL resolving as before — and fetches nothing.
+It holds on trees described by `Flat` (every target available, every group with media consists of comments and style
+rules after flattening): -/
+
+/-- T19.3 [W1]: `resolveImports` computes exactly the specified flattening — cascade order, marker comment, re-basing
+with the @import's href, wrapping in the @import's media, @charset dropped — appended to the target, and no fetcher
+is called; for every virtual file system and every href of the sheets. Termination is by structural recursion on
+the import tree (the model has no fuel here). -/
+theorem resolveImports_flat_partial (vfs : Vfs) (href : Str) (sheet out : Sheet) (h : Flat sheet out) :
+    resolveImports vfs href sheet = ⟨.ok out, []⟩ := by
+  have := resolveRules_flat vfs h href []
+  simpa [resolveImports] using this
+
+/-- … into an existing target the rules are appended in that order -/
+theorem resolveRules_flat_appends (vfs : Vfs) (href : Str) (target sheet out : Sheet) (h : Flat sheet out) :
+    resolveRules vfs href target sheet = ⟨.ok (target ++ out), []⟩ := resolveRules_flat vfs h href target
+
+/-- every rule of the flattened sheet is a comment, style, @media, @page, @font-face or unknown rule: no @import,
+@charset or @namespace is left -/
+theorem flat_has_no_imports (sheet out : Sheet) (h : Flat sheet out) : ∀ r ∈ out, isPlain r = true := h.plain_out
+
+section
+open CssVerif.Proto
+
+/-- non-vacuity: main sheet `@charset "x"; @import "css/a.css" print; b{}` with `css/a.css` = `a{background:url(i.png)}`
+flattens to `/* START … */ @media print{a{background:url(css/i.png)}} b{}` -/
+example : Flat
+    [.charset (cps "x"),
+     .imp (cps "css/a.css") (cps "print") true (cps "http://h/css/a.css")
+       [.style (cps "a") [⟨cps "background", [.uri (cps "i.png")], []⟩]],
+     .style (cps "b") []]
+    [.comment (startComment (cps "css/a.css")),
+     .media (cps "print") [.style (cps "a") [⟨cps "background", [.uri (cps "css/i.png")], []⟩]],
+     .style (cps "b") []] := by
+  refine Flat.charset _ ?_
+  have h1 : Flat [.style (cps "a") [⟨cps "background", [.uri (cps "i.png")], []⟩]]
+      [.style (cps "a") [⟨cps "background", [.uri (cps "i.png")], []⟩]] := Flat.plain rfl Flat.nil
+  have h2 : Flat [.style (cps "b") []] [.style (cps "b") []] := Flat.plain rfl Flat.nil
+  have hr : replRules (replacer (cps "css/a.css")) [.style (cps "a") [⟨cps "background", [.uri (cps "i.png")], []⟩]]
+      = .ok ([.style (cps "a") [⟨cps "background", [.uri (cps "css/i.png")], []⟩]], [cps "i.png"]) := by
+    have : replacer (cps "css/a.css") (cps "i.png") = .ok (cps "css/i.png") := by decide
+    simp [replRules, replRule, replStyle, replComps, this]
+  have := Flat.imp (media := cps "print") (ihref := cps "http://h/css/a.css") h1 hr
+    (Or.inr (by intro r hr; simp at hr; subst hr; rfl)) h2
+  have hne : cps "print" ≠ cps "all" := by decide
+  simpa [wrapMedia, mediaAll, hne] using this
+
+/-! ### known findings of the flattening, machine-checked on the model (each also fails on the implementation) -/
+
+/-- C19-media-import-of-kept-import-raises: `@import "a.css" print;` where `a.css` holds an @import that has to be
+kept (here: not available) — the kept @import is "combinable", the @media proxy refuses it, HierarchyRequestErr
+escapes from `resolveImports` -/
+theorem resolveImports_raises_on_kept_import_under_media :
+    (resolveImports [] (cps "http://h/m.css")
+      [.imp (cps "a.css") (cps "print") true (cps "http://h/a.css")
+        [.imp (cps "x.css") mediaAll false [] [], .style (cps "a") []]]).err? = some .hierarchyRequestErr := by
+  decide +kernel
+
+/-- C19-unavailable-refetched: … and before that the unavailable target was fetched again, with the DEFAULT fetcher
+(the target sheet made by `resolveImports` has no fetcher of its own) -/
+theorem resolveImports_refetches_unavailable_with_default_fetcher :
+    (resolveImports [] (cps "http://h/m.css")
+      [.imp (cps "x.css") mediaAll false [] []]).log = [(.dflt, cps "http://h/x.css")] := by
+  decide +kernel
+
+/-- … and at parse time an unavailable target is fetched twice -/
+theorem parse_fetches_unavailable_twice :
+    (parseSheet [] (cps "http://h/m.css") [notLoaded (cps "x.css") mediaAll]).log
+      = [(.user, cps "http://h/x.css"), (.user, cps "http://h/x.css")] := by decide +kernel
+
+/-- C19-kept-import-hoisted: `@import "a.css"; @import "b.css" print;` with `b.css` = `@page{}` (cannot be wrapped):
+the kept @import of b is put in front of the rules of a, which it used to follow in cascade order.
+kinds: 1 = comment, 2 = @import, 4 = style rule -/
+theorem kept_import_is_hoisted_over_merged_rules :
+    (resolveImports [] (cps "http://h/m.css")
+      [.imp (cps "a.css") mediaAll true (cps "http://h/a.css") [.style (cps "a") []],
+       .imp (cps "b.css") (cps "print") true (cps "http://h/b.css") [.page [] [] []]]).okMap (·.map Rule.tag)
+      = some [1, 2, 4, 1] := by decide +kernel
+
+/-- C19-kept-import-not-rebased: `@import "css/a.css";` with `css/a.css` = `@import "b.css" print;` and
+`css/b.css` = `@page{}`: the kept `@import "b.css"` arrives in the flattened sheet with its href unchanged, where it
+means `b.css` next to the main sheet, not `css/b.css` -/
+theorem kept_nested_import_keeps_its_href :
+    (resolveImports [] (cps "http://h/m.css")
+      [.imp (cps "css/a.css") mediaAll true (cps "http://h/css/a.css")
+        [.imp (cps "b.css") (cps "print") true (cps "http://h/css/b.css") [.page [] [] []]]]).okMap importHrefs
+      = some [cps "b.css"] ∧
+    urljoin (cps "http://h/m.css") (cps "b.css") ≠ urljoin (cps "http://h/css/a.css") (cps "b.css") := by
+  constructor
+  · decide +kernel
+  · decide
+end
 
 end CssVerif.C19
